@@ -85,6 +85,7 @@ func (e *Engine) dispatchCall(st *State, cc *ssa.CallCommon, site ssa.Instructio
 	// dynamic call through an unknown function value
 	sig := cc.Signature()
 	e.unmodelled["dynamic call in "+e.oblPrefix(fr.fn)] = true
+	e.bumpAlloc(st)
 	var rs []Val
 	for i, t := range resultTypes(sig) {
 		rs = append(rs, e.freshOf(st, fmt.Sprintf("dyn_r%d", i), t))
@@ -148,6 +149,7 @@ func (e *Engine) callFunc(st *State, fn *ssa.Function, binds []Val, args []Val, 
 	}
 	// unmodelled: havoc results and the callee's mod set (for functions of this repository)
 	e.unmodelled[fn.String()] = true
+	e.bumpAlloc(st)
 	if e.P.inRepo(fn) && fn.Blocks != nil {
 		for h := range e.P.modset(e, fn) {
 			e.heapHavoc(st, h)
@@ -244,6 +246,7 @@ func (e *Engine) invoke(st *State, cc *ssa.CallCommon, site ssa.Instruction, rec
 		return
 	}
 	e.unmodelled["invoke "+ikey] = true
+	e.bumpAlloc(st)
 	var rs []Val
 	for i, t := range resultTypes(sig) {
 		rs = append(rs, e.freshOf(st, fmt.Sprintf("%s_r%d", mname, i), t))
@@ -539,6 +542,10 @@ func (e *Engine) applyContract(st *State, c *Contract, fn *ssa.Function, sig *ty
 	}
 	// havoc the frame
 	e.havocModifies(st, env, c)
+	// the callee may allocate: results may refer to objects newer than the current watermark
+	na := e.S.Fresh("alloc", "Int")
+	st.assume(fmt.Sprintf("(>= %s %s)", na, st.alloc))
+	st.alloc = na
 	// results
 	var rs []Val
 	rts := resultTypes(sig)
@@ -815,6 +822,13 @@ func (e *Engine) checkFrame(st *State, fn *ssa.Function, c *Contract, env *Env) 
 			e.addObl(st, fmt.Sprintf("%s.frame.%s", e.oblPrefix(fn), h), "frame", "objects existing at entry unchanged outside modifies", f)
 		}
 	}
+}
+
+// bumpAlloc: a call may have allocated; later results may be newer than the old watermark.
+func (e *Engine) bumpAlloc(st *State) {
+	na := e.S.Fresh("alloc", "Int")
+	st.assume(fmt.Sprintf("(>= %s %s)", na, st.alloc))
+	st.alloc = na
 }
 
 // stripTypeArgs removes [..] type argument lists from a function name.
